@@ -232,8 +232,16 @@ def run_server(spec: dict, seed: int, conf: dict | None = None, replay_actions: 
                             snap = corr._summary(live._runner_info(run), len(run.writes) - base) + " ;; " + enc.state(r.state)
                         except enc.EncError:
                             snap = None  # fractional times (the F13 witnesses): monitors only, no model comparison
+                    wake = None
+                    if snap is not None:
+                        # what the loop's next `wait_for_next_task` is told: next_wakeup_timeout(now), as an absolute time
+                        try:
+                            to = run.runner.next_wakeup_timeout(loop.time())
+                            wake = "_" if to is None else enc.num(loop.time() + to)
+                        except Exception as ex:  # noqa: BLE001
+                            wake = f"<{type(ex).__name__}: {ex}>"
                     run.marks.append({"kind": "quiet", "t": loop.time(), "idx": len(run.trace.calls), "row": row, "live": is_live,
-                                      "snap": snap, "inits": len(run.inits)})
+                                      "snap": snap, "inits": len(run.inits), "wake": wake})
                     if row["status"] in TERMINAL:
                         st_out.end = "terminal"
                         break
@@ -242,7 +250,13 @@ def run_server(spec: dict, seed: int, conf: dict | None = None, replay_actions: 
                         break
                     whens = [h._when for h in loop._scheduled if not h._cancelled]  # type: ignore[attr-defined]
                     has_timer = bool(whens)
+                    # a handle that fell due at this very instant (asyncio.wait(timeout=0) of a control loop whose next timer is
+                    # due now) has already been moved to the ready queue: the run is about to go on, this is no place to decide
+                    # that nothing will happen any more
+                    busy = bool(loop._ready)  # type: ignore[attr-defined]
                     if plan is None and whens and min(whens) - t0 > horizon:
+                        if busy:
+                            continue
                         st_out.end = "horizon"  # nothing is due within the observation window: observed up to the horizon
                         st_out.final["observed_until"] = horizon
                         break
@@ -277,6 +291,8 @@ def run_server(spec: dict, seed: int, conf: dict | None = None, replay_actions: 
                         if crashes > 0 and run.choose(100) < int(conf.get("crash_pct", 15)):
                             options = [("crash", None)]
                         if not options:
+                            if busy:
+                                continue
                             st_out.end = "stuck"
                             break
                         kind, arg = options[run.choose(len(options))]
@@ -321,6 +337,8 @@ def run_server(spec: dict, seed: int, conf: dict | None = None, replay_actions: 
                 st_out.final["live"] = stack.active(ph.run_id)
                 st_out.final["t"] = max(loop.time() - t0, until or 0.0)
                 st_out.final["t0"] = t0
+                st_out.final["gates_waiting"] = len(run.waiting)
+                st_out.final["observed_until"] = until
                 try:
                     st_out.final["persisted"] = [enc.tick(t) for t in await stack.ticks(ph.run_id)]
                 except Exception as e:  # noqa: BLE001
@@ -444,6 +462,9 @@ def model_lines(tr: STrace) -> tuple[list[str], list[str]]:
             outs.append("status=%s idle=%s live=%d loads=%d err=%s" % (row["status"], enc.num(row["idle"]), 1 if m["live"] else 0, m["inits"], err_state[0]))
             if m["snap"] is not None:
                 ops.append("rshow"); outs.append(norm_rshow(m["snap"]))
+                if m.get("wake") is not None:
+                    # the instant the control loop sleeps until = the earliest entry of the timer heap (Runner.nextWakeup)
+                    ops.append("wake"); outs.append(m["wake"])
             elif not m["live"]:
                 ops.append("rshow"); outs.append("not-live")
 
@@ -503,6 +524,14 @@ def expectations(tr: STrace) -> tuple[list[Expect], list[dict]]:
     the control loop (of any incarnation) processes the corresponding tick."""
     exps: list[Expect] = []
     spurious: list[dict] = []
+    cut_idx = [c["idx"] for c in cuts(tr)]
+
+    def pick(cands: list[Expect], k: int) -> Expect | None:
+        # a timer tick processed by a control loop was armed in that very incarnation (a cut drops the whole heap): among
+        # the open expectations with the same key prefer the oldest one armed since the last cut, else the oldest
+        same = [x for x in cands if not any(x.created_idx < ci <= k for ci in cut_idx)]
+        return same[0] if same else (cands[0] if cands else None)
+
     for k, c in enumerate(tr.trace.calls):
         if c.caller != "_process_tick" or c.error is not None:
             continue
@@ -518,15 +547,15 @@ def expectations(tr: STrace) -> tuple[list[Expect], list[dict]]:
                     if not present:
                         exps.append(Expect("waiter_timeout", tk.step_name, r.waiter_id, None, k, c.now, c.now + r.timeout))
         elif isinstance(tk, T.TickAddEvent) and tk.attempts and tk.step_name is not None:
-            e = next((x for x in exps if x.kind == "retry" and x.delivered_idx is None and x.step == tk.step_name
-                      and x.ident == getattr(tk.event, "uid", None) and x.attempts == tk.attempts), None)
+            e = pick([x for x in exps if x.kind == "retry" and x.delivered_idx is None and x.step == tk.step_name
+                      and x.ident == getattr(tk.event, "uid", None) and x.attempts == tk.attempts], k)
             if e is None:
                 spurious.append({"kind": "retry", "step": tk.step_name, "uid": getattr(tk.event, "uid", None), "attempts": tk.attempts, "t": c.now})
             else:
                 e.delivered_idx, e.delivered_t = k, c.now
         elif isinstance(tk, T.TickWaiterTimeout):
-            e = next((x for x in exps if x.kind == "waiter_timeout" and x.delivered_idx is None and x.step == tk.step_name
-                      and x.ident == tk.waiter_id), None)
+            e = pick([x for x in exps if x.kind == "waiter_timeout" and x.delivered_idx is None and x.step == tk.step_name
+                      and x.ident == tk.waiter_id], k)
             if e is None:
                 spurious.append({"kind": "waiter_timeout", "step": tk.step_name, "waiter": tk.waiter_id, "t": c.now})
             else:
@@ -551,7 +580,9 @@ def expectations(tr: STrace) -> tuple[list[Expect], list[dict]]:
             hit = next((s for s in tr.trace.steps if s[0] == "enter" and s[1] == e.step and s[2] == e.ident and s[3] == e.attempts
                         and s[4] >= e.delivered_t - EPS), None)
         else:
-            hit = next((s for s in tr.trace.steps if s[0] == "wait_timeout" and s[1] == e.step and s[5].get("wid") == e.ident
+            # (the step side does not know an auto-generated waiter id: its record then carries None / "auto<type>:<requirement>")
+            hit = next((s for s in tr.trace.steps if s[0] == "wait_timeout" and s[1] == e.step
+                        and (s[5].get("wid") == e.ident or s[5].get("wid") is None or str(s[5].get("wid")).startswith("auto"))
                         and s[4] >= e.delivered_t - EPS), None)
         e.effect_t = None if hit is None else hit[4]
     return exps, spurious
@@ -574,6 +605,7 @@ def mon_timers(tr: STrace, case: Any) -> list[Violation]:
     cs = cuts(tr)
     status = tr.final.get("status")
     t_end = tr.final.get("t0", 0.0) + tr.final.get("t", 0.0)
+    until = tr.final.get("observed_until")
     last_idx = len(tr.trace.calls)
     for e in exps:
         upto = e.delivered_idx if e.delivered_idx is not None else (e.moot_idx if e.moot_idx is not None else last_idx)
@@ -589,6 +621,21 @@ def mon_timers(tr: STrace, case: Any) -> list[Violation]:
                 continue
             if t_end < e.due - EPS and tr.end != "stuck":
                 continue  # the observation window ended before the timer was due ("stuck" = nothing is scheduled any more)
+            if while_pending and while_pending[0]["t"] > e.due + EPS:
+                # not the known loss of a timer that was still in the future when the run left memory: this one was already
+                # due and the control loop had not delivered it (it slept past it), so the cut found it still in the heap
+                c0 = while_pending[0]
+                in_heap = any(h[1] == ("retry" if e.kind == "retry" else "wtimeout") and h[2] == e.step and h[3] == e.ident
+                              and abs(h[0] - e.due) < EPS and (e.kind != "retry" or h[4] == e.attempts) for h in c0["heap"])
+                if in_heap:
+                    sig, how = f"C14/{e.kind}_overdue_at_{c0['kind']}", "the control loop slept past it: it was still in the timer heap"
+                else:
+                    sig, how = f"C14/{e.kind}_dropped_before_{c0['kind']}", "it had vanished from the timer heap without being delivered"
+                vs.append(Violation(sig,
+                                    f"{desc} was still undelivered when the run left memory ({c0['kind']}) at t={c0['t']:g}, {c0['t'] - e.due:g} s after it was due: "
+                                    f"{how} (timer heap at the cut: {[h[:5] for h in c0['heap']]}; idle_timeout={tr.conf.get('idle_timeout')}); "
+                                    f"at t={t_end:g} ({tr.end}) the handler is '{status}', in memory: {tr.final.get('live')}", case))
+                continue
             vs.append(Violation(f"C14/{e.kind}_lost_{where}",
                                 f"{desc} never fired: at t={t_end:g} ({tr.end}) the handler is '{status}', in memory: {tr.final.get('live')}; {ctx or 'the run never left memory'}",
                                 case))
@@ -597,7 +644,11 @@ def mon_timers(tr: STrace, case: Any) -> list[Violation]:
             vs.append(Violation(f"C14/{e.kind}_early_{where}", f"{desc} fired at t={e.delivered_t:g}; {ctx}", case))
         elif e.delivered_t > e.due + EPS:
             vs.append(Violation(f"C14/{e.kind}_late_{where}", f"{desc} fired at t={e.delivered_t:g}; {ctx}", case))
-        if e.effect_t is None and status not in TERMINAL and tr.end in ("stuck", "plan-done") \
+        # "horizon" through the shortcut (observed_until: no loop timer within the window) with no step parked at a gate: every
+        # step body has returned or is suspended for good, so every worker slot the effect could have been queued behind is free
+        settled = tr.end in ("stuck", "plan-done") or (tr.end == "horizon" and until is not None and tr.final.get("gates_waiting") == 0
+                                                        and e.moot is None)
+        if e.effect_t is None and status not in TERMINAL and settled \
                 and not any(c["idx"] > e.delivered_idx for c in cs):
             what = "the step was not executed again" if e.kind == "retry" else "the waiting step never got its TimeoutError"
             vs.append(Violation(f"C14/{e.kind}_no_effect_{where}", f"{desc} fired at t={e.delivered_t:g} but {what}; {ctx}", case))
